@@ -37,8 +37,8 @@ pub struct RAction {
     pub principals: Vec<String>,
     pub resources: Vec<String>,
     pub context: RAttrs,
-    /// parent action groups (same namespace), by id
-    pub member_of: Vec<String>,
+    /// parent action groups (uids; possibly of another namespace's `Action` type)
+    pub member_of: Vec<Uid>,
 }
 
 impl RAction {
@@ -94,11 +94,10 @@ impl RSchema {
     }
     pub fn action_ancestors(&self, a: &RAction) -> BTreeSet<Uid> {
         let mut seen = BTreeSet::new();
-        let mut st: Vec<String> = a.member_of.clone();
-        while let Some(x) = st.pop() {
-            let u = Uid { ty: a.ty(), id: x.clone() };
-            if seen.insert(u) {
-                if let Some(p) = self.actions.iter().find(|p| p.ns == a.ns && p.id == x) {
+        let mut st: Vec<Uid> = a.member_of.clone();
+        while let Some(u) = st.pop() {
+            if seen.insert(u.clone()) {
+                if let Some(p) = self.actions.iter().find(|p| p.uid() == u) {
                     st.extend(p.member_of.iter().cloned());
                 }
             }
